@@ -168,7 +168,17 @@ func (m *Markdown) renderNode(w io.Writer, node ast.Node, src []byte) error {
 	case *ast.HTMLBlock:
 		return m.renderHTMLBlock(w, n, src)
 	case *ast.TextBlock:
-		return m.renderInlineChildren(w, n, src)
+		if err := m.renderInlineChildren(w, n, src); err != nil {
+			return err
+		}
+		// Keep the line break between the text of a tight list item and a
+		// block that follows it (as goldmark's renderer does).
+		if n.NextSibling() != nil && n.FirstChild() != nil {
+			if _, err := io.WriteString(w, "\n"); err != nil {
+				return err
+			}
+		}
+		return nil
 	case *east.Table:
 		return m.renderTable(w, n, src)
 	default:
